@@ -9,6 +9,10 @@ import (
 	"golang.org/x/tools/go/ssa"
 )
 
+// ExtraNilness lets a rule add trusted nilness knowledge about specific values (set before a
+// walk, reset after it).
+var ExtraNilness func(v ssa.Value) (known, isNil bool)
+
 // NilFacts maps SSA values (and local Alloc cells) to a known nilness: true = nil.
 type NilFacts map[ssa.Value]bool
 
@@ -41,6 +45,11 @@ func Nilness(v ssa.Value, f NilFacts) (bool, bool) {
 	for i := 0; i < 6; i++ {
 		if n, ok := f[v]; ok {
 			return true, n
+		}
+		if ExtraNilness != nil {
+			if k, n := ExtraNilness(v); k {
+				return true, n
+			}
 		}
 		switch x := v.(type) {
 		case *ssa.Const:
@@ -130,11 +139,29 @@ type NilWalkResult struct {
 // edges, ending a path at any instruction for which stopAt returns true. onInstr is called for
 // every instruction visited with the facts holding before it.
 func NilWalk(fn *ssa.Function, from map[Edge]bool, cut map[Edge]bool, stopAt func(ssa.Instruction) bool, onInstr func(ssa.Instruction, NilFacts)) NilWalkResult {
+	return nilWalk(fn, from, nil, cut, stopAt, onInstr)
+}
+
+// NilWalkAfter starts right after instruction `after`.
+func NilWalkAfter(fn *ssa.Function, after ssa.Instruction, cut map[Edge]bool, stopAt func(ssa.Instruction) bool, onInstr func(ssa.Instruction, NilFacts)) NilWalkResult {
+	return nilWalk(fn, nil, after, cut, stopAt, onInstr)
+}
+
+func nilWalk(fn *ssa.Function, from map[Edge]bool, after ssa.Instruction, cut map[Edge]bool, stopAt func(ssa.Instruction) bool, onInstr func(ssa.Instruction, NilFacts)) NilWalkResult {
 	res := NilWalkResult{Blocks: map[*ssa.BasicBlock]bool{}}
 	type item struct {
-		b    *ssa.BasicBlock
-		pred *ssa.BasicBlock
-		f    NilFacts
+		b     *ssa.BasicBlock
+		pred  *ssa.BasicBlock
+		f     NilFacts
+		start int
+		last  map[*ssa.Alloc]ssa.Value // per path: value most recently stored into each tracked cell
+	}
+	cloneLast := func(m map[*ssa.Alloc]ssa.Value) map[*ssa.Alloc]ssa.Value {
+		n := make(map[*ssa.Alloc]ssa.Value, len(m))
+		for k, v := range m {
+			n[k] = v
+		}
+		return n
 	}
 	cellOK := map[*ssa.Alloc]bool{}
 	isCell := func(v ssa.Value) (*ssa.Alloc, bool) {
@@ -151,11 +178,18 @@ func NilWalk(fn *ssa.Function, from map[Edge]bool, cut map[Edge]bool, stopAt fun
 	}
 	seen := map[string]bool{}
 	var work []item
-	if from == nil {
+	if after != nil {
+		b := after.Block()
+		for i, in := range b.Instrs {
+			if in == after {
+				work = append(work, item{b, nil, NilFacts{}, i + 1, map[*ssa.Alloc]ssa.Value{}})
+			}
+		}
+	} else if from == nil {
 		if len(fn.Blocks) == 0 {
 			return res
 		}
-		work = append(work, item{fn.Blocks[0], nil, NilFacts{}})
+		work = append(work, item{fn.Blocks[0], nil, NilFacts{}, 0, map[*ssa.Alloc]ssa.Value{}})
 	} else {
 		for e := range from {
 			if cut[e] {
@@ -163,8 +197,8 @@ func NilWalk(fn *ssa.Function, from map[Edge]bool, cut map[Edge]bool, stopAt fun
 			}
 			f := NilFacts{}
 			// facts implied by the start edge itself
-			applyEdgeFact(e, f, isCell)
-			work = append(work, item{e.From.Succs[e.Idx], e.From, f})
+			applyEdgeFact(e, f, isCell, nil)
+			work = append(work, item{e.From.Succs[e.Idx], e.From, f, 0, map[*ssa.Alloc]ssa.Value{}})
 		}
 	}
 	const maxStates = 200000
@@ -172,6 +206,7 @@ func NilWalk(fn *ssa.Function, from map[Edge]bool, cut map[Edge]bool, stopAt fun
 		it := work[len(work)-1]
 		work = work[:len(work)-1]
 		f := it.f
+		lastStored := it.last
 		// phis
 		if it.pred != nil {
 			idx := -1
@@ -209,6 +244,17 @@ func NilWalk(fn *ssa.Function, from map[Edge]bool, cut map[Edge]bool, stopAt fun
 			}
 		}
 		key := it.b.String() + "|" + f.key()
+		if len(lastStored) > 0 {
+			ls := make([]string, 0, len(lastStored))
+			for a, v := range lastStored {
+				ls = append(ls, a.Name()+"<-"+v.Name())
+			}
+			sort.Strings(ls)
+			key += "|" + strings.Join(ls, ",")
+		}
+		if it.start > 0 {
+			key += "|@"
+		}
 		if seen[key] {
 			continue
 		}
@@ -220,7 +266,10 @@ func NilWalk(fn *ssa.Function, from map[Edge]bool, cut map[Edge]bool, stopAt fun
 		}
 		res.Blocks[it.b] = true
 		stopped := false
-		for _, in := range it.b.Instrs {
+		for ii, in := range it.b.Instrs {
+			if ii < it.start {
+				continue
+			}
 			if _, isPhi := in.(*ssa.Phi); isPhi {
 				if onInstr != nil {
 					onInstr(in, f)
@@ -245,6 +294,7 @@ func NilWalk(fn *ssa.Function, from map[Edge]bool, cut map[Edge]bool, stopAt fun
 					} else {
 						delete(f, a)
 					}
+					lastStored[a] = x.Val
 				}
 			case *ssa.UnOp:
 				if x.Op == token.MUL {
@@ -277,7 +327,7 @@ func NilWalk(fn *ssa.Function, from map[Edge]bool, cut map[Edge]bool, stopAt fun
 						idx = 1 - eqIdx
 					}
 					if !cut[Edge{it.b, idx}] {
-						work = append(work, item{it.b.Succs[idx], it.b, f.clone()})
+						work = append(work, item{it.b.Succs[idx], it.b, f.clone(), 0, cloneLast(lastStored)})
 					}
 					continue
 				}
@@ -286,8 +336,8 @@ func NilWalk(fn *ssa.Function, from map[Edge]bool, cut map[Edge]bool, stopAt fun
 						continue
 					}
 					g := f.clone()
-					applyEdgeFact(Edge{it.b, idx}, g, isCell)
-					work = append(work, item{it.b.Succs[idx], it.b, g})
+					applyEdgeFact(Edge{it.b, idx}, g, isCell, lastStored)
+					work = append(work, item{it.b.Succs[idx], it.b, g, 0, cloneLast(lastStored)})
 				}
 				continue
 			}
@@ -296,14 +346,14 @@ func NilWalk(fn *ssa.Function, from map[Edge]bool, cut map[Edge]bool, stopAt fun
 			if cut[Edge{it.b, idx}] {
 				continue
 			}
-			work = append(work, item{s, it.b, f.clone()})
+			work = append(work, item{s, it.b, f.clone(), 0, cloneLast(lastStored)})
 		}
 	}
 	return res
 }
 
 // applyEdgeFact records what taking edge e (of an If on a nil test) implies.
-func applyEdgeFact(e Edge, f NilFacts, isCell func(ssa.Value) (*ssa.Alloc, bool)) {
+func applyEdgeFact(e Edge, f NilFacts, isCell func(ssa.Value) (*ssa.Alloc, bool), last map[*ssa.Alloc]ssa.Value) {
 	if len(e.From.Instrs) == 0 {
 		return
 	}
@@ -328,6 +378,9 @@ func applyEdgeFact(e Edge, f NilFacts, isCell func(ssa.Value) (*ssa.Alloc, bool)
 	if u, ok := v.(*ssa.UnOp); ok && u.Op == token.MUL {
 		if c, ok := isCell(u.X); ok {
 			f[c] = isNil
+			if sv, ok := last[c]; ok {
+				f[sv] = isNil
+			}
 		}
 	}
 }
